@@ -317,5 +317,15 @@ pub fn other_entries_changed(fr: &FaultRun, source_files: &[String]) -> Vec<Stri
                 false
             }
     };
-    snapshot_diff(&fr.snap_before, &fr.snap_after, false, &ignore)
+    let mut d = snapshot_diff(&fr.snap_before, &fr.snap_after, false, &ignore);
+    // scratch files left behind by a process that was KILLED are tolerated wherever the tool keeps
+    // them (C08 judges left-overs of runs that exit by themselves)
+    if matches!(fr.run.exit, Exit::Signal(_))
+    {
+        d.retain(|l| {
+            let name = l.rsplit('/').next().unwrap_or("");
+            !(l.starts_with("created: ") && (name.ends_with(".tmp") || name.starts_with("breadlog-") || name.starts_with(".breadlog")))
+        });
+    }
+    d
 }
